@@ -53,7 +53,10 @@ Terminates == <>ADone
 
 (* ---------------- Part B ---------------- *)
 \* menus of the documented grammar (docs/reference/annotations/*.md)
-Methods == {"GET", "POST"}
+Methods == {"GET", "POST", "PUT", "PATCH", "DELETE", "HEAD", "OPTIONS"}
+\* generate spec -i <input>: no input; an input with unrelated paths and definitions; an input that already
+\* declares the annotated operation (same path, method and id), to which the annotations add their parameters
+MergeModes == {"none", "unrelated", "same_op"}
 PathsM  == {"/pets", "/pets/{id}"}
 TagSets == {<<>>, <<"pets">>, <<"pets", "users">>}
 RespMaps == {"none", "default_only", "ok_and_default", "three"}
